@@ -67,6 +67,20 @@ fn op_sets() -> Vec<(Vec<Op>, Vec<Op>)> {
         (vec![], vec![wr(Some(0), 0), wr(Some(1), 0), wr(None, 0)]),
         (vec![wr(Some(0), 2)], vec![Op::Remove { key: 0 }, wr_stream(0, 1), Op::List]),
         (vec![wr(Some(0), 0), wr(Some(1), 0)], vec![Op::RemoveHash { addr: a(0) }, Op::Read { key: 1 }, wr(Some(0), 0)]),
+        // the temp area lives on another filesystem (publication cannot be a rename)
+        (vec![Op::TmpElsewhere], vec![wr(None, 0), Op::ReadHash { addr: a(0) }]),
+        (vec![wr(Some(1), 0), Op::TmpElsewhere], vec![wr(Some(0), 0), Op::Read { key: 1 }]),
+    ]
+}
+
+/// Operation sets that start from a long history on one key (hundreds of records, a bucket of
+/// more than 64 KiB): whatever housekeeping an implementation does on big buckets races here.
+fn long_history_sets() -> Vec<(Vec<Op>, Vec<Op>)> {
+    let long: Vec<Op> = (0..330).map(|i| if i % 4 == 3 { wr_stream(0, i % 3) } else { wr(Some(0), i % 3) }).collect();
+    vec![
+        (long.clone(), vec![wr(Some(0), 1), Op::Meta { key: 0 }]),
+        (long.clone(), vec![Op::Remove { key: 0 }, Op::Read { key: 0 }]),
+        (long, vec![wr(Some(0), 2), wr(Some(0), 1)]),
     ]
 }
 
@@ -167,7 +181,7 @@ fn final_observations(ctx: &Ctx, addrs: &[AddrRef]) -> Vec<(Step, Out, u128, u12
 
 /// No record lost, none fused: every bucket file decodes to valid records only, and their
 /// number is the number of successful inserts / removals that went to that bucket.
-fn splice_check(ctx: &Ctx, init: &[Step], ops: &[Step], outs: &[(Out, u128, u128)]) -> Result<(), String> {
+fn splice_check(ctx: &Ctx, init: &[Step], init_outs: &[(Out, u128, u128)], ops: &[Step], outs: &[(Out, u128, u128)]) -> Result<(), String> {
     for (k, key) in ctx.keys.iter().enumerate() {
         let count = |steps: &[Step], outs: Option<&[(Out, u128, u128)]>| -> usize {
             steps
@@ -183,7 +197,7 @@ fn splice_check(ctx: &Ctx, init: &[Step], ops: &[Step], outs: &[(Out, u128, u128
                 })
                 .count()
         };
-        let expect = count(init, None) + count(ops, Some(outs));
+        let expect = count(init, Some(init_outs)) + count(ops, Some(outs));
         let p = reffmt::bucket_path(&ctx.cache, key);
         let bytes = std::fs::read(&p).unwrap_or_default();
         let lines = reffmt::split_lines(&bytes);
@@ -225,7 +239,9 @@ impl Engine for C07 {
     fn exhaustive(&self, tier: Tier) -> Vec<Case> {
         let (keys, blobs) = pools();
         let mut out = Vec::new();
-        for (init, ops) in op_sets() {
+        let mut sets = op_sets();
+        sets.extend(long_history_sets());
+        for (init, ops) in sets {
             let n = ops.len();
             let mk = |first: u8, switches: Vec<(u16, u8)>| Case {
                 keys: keys.clone(),
@@ -267,7 +283,7 @@ impl Engine for C07 {
     fn strategy(&self, _tier: Tier) -> BoxedStrategy<Case> {
         let (keys, blobs) = pools();
         (
-            vec(rand_op(), 0..3),
+            vec(prop_oneof![12 => rand_op(), 1 => Just(Op::TmpElsewhere)], 0..3),
             vec((rand_op(), crate::gen::fl()), 2..4),
             prop_oneof![
                 3 => (0u8..3, vec((0u16..80, 0u8..2), 0..5)).prop_map(|(first, mut sw)| {
@@ -283,7 +299,7 @@ impl Engine for C07 {
                 Case {
                     keys: keys.clone(),
                     blobs: blobs.clone(),
-                    init: init.into_iter().filter(|o| matches!(o, Op::Write(_) | Op::Remove { .. })).map(|op| Step { op, fl: Fl::Sync }).collect(),
+                    init: init.into_iter().filter(|o| matches!(o, Op::Write(_) | Op::Remove { .. } | Op::TmpElsewhere)).map(|op| Step { op, fl: Fl::Sync }).collect(),
                     ops: ops.into_iter().map(|(op, fl)| Step { op, fl: if scheduled { Fl::Sync } else { fl } }).collect(),
                     mode,
                 }
@@ -302,9 +318,11 @@ impl Engine for C07 {
             env.scratch.reset();
             let ctx = Ctx::new(env.scratch.cache.clone(), env.scratch.scratch.clone(), &c.keys, &c.blobs);
             let mut m0 = Model::new();
+            let mut init_outs: Vec<(Out, u128, u128)> = Vec::new();
             for (i, s) in c.init.iter().enumerate() {
                 let r = run_step(&ctx, s);
                 m0.step(&ctx, s, &r.out, r.t0, r.t1).map_err(|e| format!("initial state step {i}: {e}"))?;
+                init_outs.push((r.out, r.t0, r.t1));
             }
             let prog = Program { keys: c.keys.clone(), blobs: c.blobs.clone(), steps: c.ops.clone() };
             let mut addrs = basic::addr_universe(&prog);
@@ -454,7 +472,7 @@ impl Engine for C07 {
                 Ok(_) => {}
                 Err(why) => return Err(format!("no serial order explains the outcome — {} — tried: {why}", describe())),
             }
-            splice_check(&ctx, &c.init, &c.ops, &obs.outs).map_err(|e| format!("{e} — {}", describe()))?;
+            splice_check(&ctx, &c.init, &init_outs, &c.ops, &obs.outs).map_err(|e| format!("{e} — {}", describe()))?;
             basic::content_invariant(&ctx, &Model::new(), false).map_err(|e| format!("{e} — {}", describe()))?;
             let nt = match &c.mode {
                 Mode::Scheduled { .. } => preempted_inside,
